@@ -30,7 +30,7 @@ def opHttp (l : Line) : Except String String := do
     match s1.run rest with
     | none => .error "model: stop cannot complete"
     | some s2 =>
-      pure (s!"stopped={b01 (s2.stopPhase == 2)} errs=0 listening={b01 s2.listenerOpen} stop_returned_while_posthook_running={b01 early} served={if sc == "immediate" then 0 else 1} store_used_after_stop=0\t{sc}")
+      pure (s!"stopped={b01 (s2.stopPhase == 2)} errs=0 listening={b01 s2.listenerOpen} stop_returned_while_posthook_running={b01 early} served={if sc == "immediate" then 0 else 1} store_used_after_stop=0 goroutines_left={(if s2.serveRunning then 1 else 0) + s2.handlers + s2.posthooks}\t{sc}")
 
 def opUdp (l : Line) : Except String String := do
   let sc := l.get "scenario"
@@ -44,7 +44,7 @@ def opUdp (l : Line) : Except String String := do
     | none => .error "model: stop cannot complete"
     | some s2 =>
       -- a second Stop finds `closing` closed: AlreadyStopped
-      pure (s!"stopped={b01 (s2.stopPhase == 2)} errs=0 listening={b01 s2.socketOpen} stop_returned_while_posthook_running={b01 early} served={if sc == "immediate" then 0 else 1} second_stop={b01 s2.closing} store_used_after_stop=0\t{sc}")
+      pure (s!"stopped={b01 (s2.stopPhase == 2)} errs=0 listening={b01 s2.socketOpen} stop_returned_while_posthook_running={b01 early} served={if sc == "immediate" then 0 else 1} second_stop={b01 s2.closing} store_used_after_stop=0 goroutines_left={s2.wg}\t{sc}")
 
 def opReload (l : Line) : Except String String := do
   let n ← l.nat "peers"
@@ -85,9 +85,10 @@ def handle (l : Line) : Option (Except String String) :=
   | "life.binary" => some (opBinary l)
   | "life.metrics" => some (do   -- the metrics server: a stop-group member like a frontend; stopped means the port is closed
       let imm ← l.bool "immediate"
-      pure (s!"served={if imm then "-" else "1"} stopped=1 errs=0 free_at_stop=1 second_cycle=1 listening=0\tmetrics"))
+      pure (s!"served={if imm then "-" else "1"} stopped=1 errs=0 free_at_stop=1 goroutines_left=0 second_cycle=1 listening=0\tmetrics"))
   | "clock.stall" => some (pure "fresh_before=1 unix_consistent=1 held=1 caught_up_after=1\tclock")   -- the cached clock is the wall time of its last tick
-  | "life.store_stop" => some (pure "stop_pending_while_pass_parked=1 stopped=1\tstore")   -- the store's Stop waits for its expiry pass
+  | "life.store_stop" => some (pure (if l.get "kind" == "redis" then "stopped=1 goroutines_left=0\tstore"
+      else "stop_pending_while_pass_parked=1 stopped=1 goroutines_left=0\tstore"))   -- the store's Stop waits for its expiry pass
   | "udp.served" => some (opServed l)
   | "udp.overlap" => some (do let b ← l.nat "burst"; pure s!"connects_ok={b} bad=0 announce_answered_with_its_tx=1\toverlap")
   | "grp.stop" => some (opGroup l)
